@@ -30,6 +30,11 @@ PROPS = {
 }
 
 
+REJUDGE = {"cmd/bkld/main.go": ["C08", "C05"], "cmd/bkli/main.go": ["C08"], "cmd/bklr/main.go": ["C08"], "cmd/bkl/main.go": ["C08", "C09"],
+           "wrapper/wrapper.go": ["C08"], "file.go": ["C04", "C08", "C02"], "process2.go": ["C08", "C10"], "parser.go": ["C08", "C07", "C03", "C18"],
+           "merge.go": ["C08", "C10"], "yaml.go": ["C15", "C17"], "filepath.go": ["C08"], "repeat.go": ["C09", "C08"], "util.go": ["C13", "C08"]}
+
+
 def sh(cmd, cwd=None, timeout=3600, env=None):
     return subprocess.run(cmd, shell=True, executable="/bin/bash", cwd=cwd, capture_output=True, text=True, env=env or ENV, timeout=timeout)
 
@@ -100,6 +105,8 @@ def main():
     ap.add_argument("--sample", type=int, default=0)
     ap.add_argument("--seed", type=int, default=1)
     ap.add_argument("--workers", type=int, default=8)
+    ap.add_argument("--rejudge-silent", action="store_true", help="judge phase: only the survivors that an earlier judge run left silent, "
+                    "against the wider property lists of REJUDGE (error paths and crashes of the tools are C08's subject)")
     a = ap.parse_args()
     os.makedirs(OUT, exist_ok=True)
     if a.phase == "clean":
@@ -130,6 +137,11 @@ def main():
         print(Counter(x["status"] for x in out))
         return
     surv = json.load(open(os.path.join(OUT, "survivors.json")))
+    if a.rejudge_silent:
+        old = {v["id"]: v for v in json.load(open(os.path.join(OUT, "verdicts.json")))}
+        surv = [m for m in surv if old.get(m["id"], {}).get("verdict") == "silent"]
+        for f, extra in REJUDGE.items():
+            PROPS[f] = extra
     per = {w: [(m, w) for i, m in enumerate(surv) if i % a.workers == w] for w in range(a.workers)}
 
     def run_worker(w):
@@ -143,7 +155,7 @@ def main():
     with ThreadPoolExecutor(a.workers) as ex:
         for rs in ex.map(run_worker, range(a.workers)):
             out += rs
-    json.dump(out, open(os.path.join(OUT, "verdicts.json"), "w"), indent=1)
+    json.dump(out, open(os.path.join(OUT, "verdicts2.json" if a.rejudge_silent else "verdicts.json"), "w"), indent=1)
     from collections import Counter
     print(Counter(x.get("verdict") for x in out))
 
